@@ -188,7 +188,7 @@ def histories(ctx, n, lines, pending):
 def scripted_histories(ctx, pending):
     """Index A; empty the data file and open it (the index of A must go); write different content of A's size; open."""
     rng = ctx.rng
-    for i in range(4):
+    for i in range(8):
         a, _ = gen.small_file(rng, rng.choice([3, 5]), 64, 'VU')
         msgs = []
         o = 0
@@ -206,7 +206,9 @@ def scripted_histories(ctx, pending):
         path = ic.write_log(a, ['t.p1log', 'capture.raw'][i % 2])
         p1i = os.path.splitext(path)[0] + '.p1i'
         hist = []
-        for step, content in (('open', a), ('empty-data+open', b''), ('rewrite-same-size+open', b)):
+        shrink = [('empty-data+open', b''), ('shrink-to-junk+open', b'\x01\x02\x03'), ('shrink-to-half-a-header+open', a[:11]),
+                  ('shrink-to-a-false-sync+open', b'\x2e\x31' + bytes(30))][i % 4]
+        for step, content in (('open', a), shrink, ('rewrite-same-size+open', b)):
             with open(path, 'wb') as f:
                 f.write(content)
             hist.append(step)
